@@ -205,13 +205,37 @@ static const OpDef* findOp(const std::string& n) { for (int i = 0; i < NOPS; i++
 
 struct Input { GEOSGeometry* a = nullptr; GEOSGeometry* b = nullptr; double p = 0; };
 
+// pairs from the repository's own robustness corpus (tests/xmltester/tests/robust/overlay/TestOverlay-jts-798.xml, TestOverlay-misc-3.xml) on which the
+// floating-precision noding attempt of OverlayNGRobust fails, so that the overlay continues in its snapping / snap-rounding fallback stages
+static const char* const ROBUST_PAIRS[][2] = {
+    {"POLYGON ((66697.40120137333 185279.95469107336, 66698.375 185273.625, 66697.375 185280.125, 66697.40120137333 185279.95469107336))",
+     "POLYGON ((66710 185280, 66710 185260, 66690 185260, 66690 185280, 66710 185280))"},
+    {"POLYGON ((61607.62679190189 190194.1555478014, 61620.5389918983 190197.4990478009, 61619.64380966499 190197.26724827816, 61607.62679190189 190194.1555478014))",
+     "POLYGON ((61620.04309999943 190199.41420000046, 61620.41290000081 190197.98570000008, 61620.53899999708 190197.4989, 61607.62680000067 190194.15549999848, 61607.07620000094 190196.27259999886, 61620.04309999943 190199.41420000046))"},
+    {"POLYGON ((181093.43788657014 172099.78376270586, 181093.375 172099.375, 181093.57688359552 172100.6872433709, 181093.43788657014 172099.78376270586))",
+     "POLYGON ((181118.78476615425 172110.76716212876, 181097.49019999802 172097.5095999986, 181081.35400000215 172105.30889999866, 181118.78476615425 172110.76716212876))"},
+    {"POLYGON ((301949.68 2767249.16, 301936.52 2767241.28, 301938.87 2767237.43, 301952.47 2767245.59, 301950.74 2767247.81, 301949.68 2767249.16))",
+     "POLYGON ((302041.321 2767264.675, 301938.823 2767237.507, 301941.21 2767233.59, 301943.821 2767229.304, 302048.886 2767243.046, 302041.321 2767264.675))"},
+    {"POLYGON ((301936.52 2767241.28, 301933.22 2767239.3, 301934.9 2767236.51, 301935.54 2767235.44, 301938.87 2767237.43, 301936.52 2767241.28))",
+     "POLYGON ((302041.321 2767264.675, 301938.823 2767237.507, 301941.21 2767233.59, 301943.821 2767229.304, 302048.886 2767243.046, 302041.321 2767264.675))"},
+    {"POLYGON ((464664.782646596 5362148.87380619, 464664.713299 5362148.758128, 464686.806220838 5362136.92416521, 464713.650216607 5362122.5453135, 464711.113332785 5362117.30158834, 464707.408813375 5362110.21553566, 464703.323866879 5362103.23305736, 464698.945488413 5362096.31213576, 464694.461274991 5362089.42505804, 464625.876674576 5361951.92914952, 464622.430583893 5361944.69388208, 464535.3572 5361970.739, 464648.194399372 5362157.89548451, 464664.782646596 5362148.87380619))",
+     "POLYGON ((464769.977147523 5362187.88829332, 464765.146147008 5362180.84587461, 464754.387021019 5362169.93629911, 464747.786455245 5362160.11104076, 464734.810564627 5362148.45253107, 464725.386626381 5362135.71065214, 464712.646269 5362123.083073, 464727.794520848 5362149.37983229, 464738.165719397 5362165.72994593, 464746.257208116 5362179.45514151, 464752.378040379 5362191.80978275, 464769.977147523 5362187.88829332))"},
+    {"POLYGON ((698400.5682737827 2388494.3828697307, 698402.3209180075 2388497.0819257903, 698415.3598714538 2388498.764371397, 698413.5003455497 2388495.90071853, 698400.5682737827 2388494.3828697307))",
+     "POLYGON ((698231.847335025 2388474.57994264, 698440.416211779 2388499.05985776, 698432.582638943 2388300.28294705, 698386.666515791 2388303.40346027, 698328.29462841 2388312.88889197, 698231.847335025 2388474.57994264))"},
+};
+static const int N_ROBUST_PAIRS = (int) (sizeof ROBUST_PAIRS / sizeof ROBUST_PAIRS[0]);
+
 // inputs are a pure function of (family, seed, size)
 static Input makeInput(char fam, uint64_t seed, int size) {
     Geo g(seed * 7919 + (uint64_t) fam * 104729 + (uint64_t) size); Input in; Rng& r = g.r;
     int m = size == 0 ? 1 : size == 1 ? r.range(1, 2) : size == 2 ? r.range(2, 4) : r.range(5, 8);
     int nv = size == 0 ? r.range(3, 6) : size == 1 ? r.range(5, 30) : size == 2 ? r.range(10, 80) : r.range(50, 300);
     switch (fam) {
-    case 'O': in.a = g.starGrid(m, nv, 0, 0, 0.49); in.b = g.starGrid(m, nv, 0.3 * r.unit(), 0.3 * r.unit(), 0.49);
+    case 'O': if (r.chance(15)) {        // the fallback stages of OverlayNGRobust have polls of their own: reach them
+                  int k = (int) r.below((uint64_t) N_ROBUST_PAIRS); bool sw = r.chance(50);
+                  in.a = GEOSGeomFromWKT_r(H, ROBUST_PAIRS[k][sw ? 1 : 0]); in.b = GEOSGeomFromWKT_r(H, ROBUST_PAIRS[k][sw ? 0 : 1]);
+                  in.p = 0.001; break; }
+              in.a = g.starGrid(m, nv, 0, 0, 0.49); in.b = g.starGrid(m, nv, 0.3 * r.unit(), 0.3 * r.unit(), 0.49);
               in.p = r.chance(50) ? 0.001 : 0.0625; break;
     case 'U': in.a = g.starGrid(m + 1, nv, 0, 0, 0.7 + 0.4 * r.unit(), r.chance(50) ? GEOS_GEOMETRYCOLLECTION : GEOS_MULTIPOLYGON); in.p = 0.001; break;
     case 'B': switch (r.below(3)) { case 0: in.a = g.starGrid(m, nv, 0, 0, 0.49); break; case 1: in.a = g.randSegs(2 + nv / 2, m); break; default: in.a = g.path(nv + 2, m); }
